@@ -548,8 +548,8 @@ std::string
 gen_c10()
 {
 	std::ostringstream t;
-	int mode = *pbt::welem<int>({{2, 0}, {3, 1}, {3, 2}});
-	t << "cfg " << *pbt::range<int>(1, 1000000) << " " << mode << " " << *gen::element(10, 30, 60) << " " << *pbt::range<int>(0, 3) << " 400 0\n";
+	int mode = *pbt::welem<int>({{2, 0}, {3, 1}, {3, 2}, {2, 3}});
+	t << "cfg " << *pbt::range<int>(1, 1000000) << " " << mode << " " << (mode == 3 ? *gen::element(5, 20, 50) : *gen::element(10, 30, 60)) << " " << *pbt::range<int>(0, 3) << " " << (mode == 3 ? *gen::element(60, 150, 400) : 400) << " 0\n";
 	t << "world " << *pbt::range<int>(0, kNProtos - 1) << " " << *pbt::welem<int>({{3, 0}, {2, 1}, {2, 2}}) << " " << *pbt::range<int>(0, 2) << "\n";
 	auto lines = *gen::container<std::vector<std::string>>(genLine());
 	for (auto &l : lines)
